@@ -384,7 +384,7 @@ def gen_cases(tier, seed):
 
 # ---------------------------------------------------------------- running
 def run_impl(lines):
-    return common.run_cmd([HARNESS], "\n".join(lines) + "\n", timeout=60)
+    return common.run_cmd([HARNESS], "\n".join(lines) + "\n", timeout=75)
 
 
 def impl_fails(lines):
